@@ -2,6 +2,9 @@
 
 use crate::harness::{Outcome, SharedCtx};
 
+pub mod session;
+pub mod c03;
+pub mod c04;
 pub mod c13;
 pub mod c14;
 
@@ -11,6 +14,23 @@ pub struct Env {
     pub thorough: bool,
     /// coverage points (name, value) collected by the worker into per-name sets
     pub cover: Vec<(&'static str, u64)>,
+}
+
+/// CredSSP / NTLM reference server available?
+pub fn nla_available() -> bool {
+    true
+}
+
+/// plug the honest CredSSP/NTLM server into the world; returns its result record
+pub fn install_nla(world: &crate::refsrv::world::World, cfg: &session::ClientCfg) -> std::rc::Rc<std::cell::RefCell<crate::refsrv::nla::NlaResults>> {
+    let nla = {
+        let mut ctx = world.ctx.borrow_mut();
+        session::seed_client_randomness(&mut ctx);
+        session::make_nla(&mut ctx, cfg)
+    };
+    let res = nla.results.clone();
+    world.server.borrow_mut().nla = Some(Box::new(nla));
+    res
 }
 
 pub type ScenarioFn = fn(&mut Env) -> Outcome;
@@ -28,6 +48,8 @@ pub struct ScenarioDef {
 
 pub fn registry() -> Vec<ScenarioDef> {
     vec![
+        ScenarioDef { property: "C03", name: "c03/session", run: c03::run, quick_cases: 4_000, thorough_cases: 600_000, needs_tls: true },
+        ScenarioDef { property: "C04", name: "c04/session", run: c04::run, quick_cases: 4_000, thorough_cases: 600_000, needs_tls: true },
         ScenarioDef { property: "C13", name: "c13/deframe", run: c13::run, quick_cases: 200_000, thorough_cases: 4_000_000, needs_tls: false },
         ScenarioDef { property: "C14", name: "c14/tpkt_write", run: c14::run_tpkt, quick_cases: 60_000, thorough_cases: 2_000_000, needs_tls: false },
         ScenarioDef { property: "C14", name: "c14/link_write", run: c14::run_link, quick_cases: 40_000, thorough_cases: 1_000_000, needs_tls: false },
